@@ -131,10 +131,11 @@ def imm_unit(uid, entry, fn, clause, mutants):
             "mutants": mutants}
 units.append(imm_unit(
     "cfuns.can_be_imm", "h_can_be_imm", "can_be_imm",
-    "can_be_imm returns 1 iff the value is a number equal to an integer in [-128,127], and then *out equals it; otherwise 0 and *out untouched (all 2^64 values)",
+    "can_be_imm returns 1 iff the value IS the double of an integer in [-128,127] (negative zero is refused: as an immediate its sign would be lost), and then *out equals it; otherwise 0 and *out untouched (all 2^64 values)",
     [M("upper-bound-off", "if (integer > INT8_MAX || integer < INT8_MIN) return 0;", "if (integer > UINT8_MAX || integer < INT8_MIN) return 0;", "postcondition|conversion", file="cfuns.c"),
      M("lower-bound-off-by-one", "integer < INT8_MIN) return 0;", "integer <= INT8_MIN) return 0;", "postcondition", file="cfuns.c"),
-     M("int-check-dropped", "if (!janet_checkint(x)) return 0;", "if (!janet_checktype(x, JANET_NUMBER)) return 0;", "postcondition|conversion|overflow", file="cfuns.c")]))
+     M("int-check-dropped", "if (!janet_checkint(x)) return 0;", "if (!janet_checktype(x, JANET_NUMBER)) return 0;", "postcondition|conversion|overflow", file="cfuns.c"),
+     M("negative-zero-accepted", "    if (integer == 0 && signbit(janet_unwrap_number(x))) return 0;\n", "", "postcondition", file="cfuns.c")]))
 units.append(imm_unit(
     "cfuns.can_slot_be_imm", "h_can_slot_be_imm", "can_slot_be_imm",
     "can_slot_be_imm accepts exactly the constant slots whose constant is an integer in [-128,127] and yields that integer",
